@@ -78,6 +78,15 @@ theorem stopInv_no_enter (n : Node) : ∀ ev ∈ (stopInv n).2, ∀ j, ev ≠ Ev
 
 /-! ### the exact shape of `Decorator.tick` -/
 
+/-- only `Timeout` cancels its child, and then it fails: a cancelling `update()` never answers INVALID -/
+theorem decUpdate_cancel_failure (e : Env) (k : DecKind) (cs : Status)
+    (h : (decUpdate e k cs).2.2 = true) : (decUpdate e k cs).2.1 = .failure := by
+  cases k <;> simp only [decUpdate] at h ⊢ <;> first
+    | (split at h <;> first | (split at h <;> simp_all) | simp_all)
+    | (split <;> simp_all)
+    | simp_all
+
+
 /-- everything `decRun` does, as equations -/
 theorem decRun_shape (t : Tick) (e : Env) (w : Store) (i : Nat) (k : DecKind) (st : Status) (c n' : Node)
     (w' : Store) (tr : List Ev) (h : decRun t e w i k st c = .ok (n', w', tr)) :
@@ -90,11 +99,13 @@ theorem decRun_shape (t : Tick) (e : Env) (w : Store) (i : Nat) (k : DecKind) (s
          else (decUpdate e (if st ≠ .running then decInit e k else k) c1.status).1)
         (decUpdate e (if st ≠ .running then decInit e k else k) c1.status).2.1
         (if (decUpdate e (if st ≠ .running then decInit e k else k) c1.status).2.2 = true ∨
-            ((decUpdate e (if st ≠ .running then decInit e k else k) c1.status).2.1 ≠ .running ∧ c1.status = .running)
+            ((decUpdate e (if st ≠ .running then decInit e k else k) c1.status).2.1 ≠ .running ∧
+              ((decUpdate e (if st ≠ .running then decInit e k else k) c1.status).2.1 = .invalid ∨ c1.status = .running))
          then (stopInv c1).1 else c1) ∧
       tr = [.enter i] ++ trc ++
         ((if (decUpdate e (if st ≠ .running then decInit e k else k) c1.status).2.2 = true ∨
-            ((decUpdate e (if st ≠ .running then decInit e k else k) c1.status).2.1 ≠ .running ∧ c1.status = .running)
+            ((decUpdate e (if st ≠ .running then decInit e k else k) c1.status).2.1 ≠ .running ∧
+              ((decUpdate e (if st ≠ .running then decInit e k else k) c1.status).2.1 = .invalid ∨ c1.status = .running))
           then (stopInv c1).2 else []) ++
          [.yld i (decUpdate e (if st ≠ .running then decInit e k else k) c1.status).2.1]) := by
   simp only [decRun, bind, Except.bind] at h
@@ -109,12 +120,15 @@ theorem decRun_shape (t : Tick) (e : Env) (w : Store) (i : Nat) (k : DecKind) (s
     | error err => simp [hp] at h
     | ok w2 =>
       simp only [hp] at h
-      generalize decUpdate e k0 c1.status = u at h ⊢
+      have hcf := decUpdate_cancel_failure e k0 c1.status
+      generalize decUpdate e k0 c1.status = u at h hcf ⊢
       obtain ⟨k1, ns, cancel⟩ := u
-      simp only at h ⊢
+      simp only at h hcf ⊢
       cases cancel with
       | true =>
-        simp only [↓reduceIte, stopInv_status, reduceCtorEq] at h
+        have hnf : ns = .failure := hcf rfl
+        subst hnf
+        simp only [↓reduceIte, stopInv_status, reduceCtorEq, false_or] at h
         split at h
         · rename_i hns
           simp only [pure, Except.pure, Except.ok.injEq, Prod.mk.injEq] at h
@@ -128,7 +142,7 @@ theorem decRun_shape (t : Tick) (e : Env) (w : Store) (i : Nat) (k : DecKind) (s
         simp only [Bool.false_eq_true, ↓reduceIte, false_or] at h ⊢
         split at h
         · rename_i hns
-          by_cases hr : c1.status = .running
+          by_cases hr : ns = .invalid ∨ c1.status = .running
           · simp only [hr, ↓reduceIte, pure, Except.pure, Except.ok.injEq, Prod.mk.injEq] at h
             obtain ⟨rfl, rfl, rfl⟩ := h
             simp [hns, hr]
@@ -182,9 +196,9 @@ theorem C09_tick_result (e : Env) (f : Nat) (w : Store) (i : Nat) (k : DecKind) 
       tickF f e w c = .ok (c1, w1, trc) ∧ decUpdate e k0 c1.status = (k1, ns, cancel) ∧
       decPublish k0 c1.status w1 = .ok w' ∧
       n' = dec i (if ns ≠ .running then decTerminate ns k1 else k1) ns
-        (if cancel = true ∨ (ns ≠ .running ∧ c1.status = .running) then (stopInv c1).1 else c1) ∧
+        (if cancel = true ∨ (ns ≠ .running ∧ (ns = .invalid ∨ c1.status = .running)) then (stopInv c1).1 else c1) ∧
       tr = [.enter i] ++ trc ++
-        ((if cancel = true ∨ (ns ≠ .running ∧ c1.status = .running) then (stopInv c1).2 else []) ++ [.yld i ns]) := by
+        ((if cancel = true ∨ (ns ≠ .running ∧ (ns = .invalid ∨ c1.status = .running)) then (stopInv c1).2 else []) ++ [.yld i ns]) := by
   rw [tickF_dec_ticks e f w i k st c hk] at h
   obtain ⟨c1, w1, trc, h1, h2, h3, h4⟩ := decRun_shape _ e w i k st c n' w' tr h
   exact ⟨c1, w1, trc, _, _, _, _, rfl, h1, rfl, h2, h3, h4⟩
@@ -203,7 +217,7 @@ theorem C09_interrupts_child (e : Env) (f : Nat) (w : Store) (i : Nat) (k : DecK
   intro hr
   subst h3
   simp only [status] at hfin
-  have hc : cancel = true ∨ (ns ≠ .running ∧ c1.status = .running) := Or.inr ⟨hfin, hr⟩
+  have hc : cancel = true ∨ (ns ≠ .running ∧ (ns = .invalid ∨ c1.status = .running)) := Or.inr ⟨hfin, Or.inr hr⟩
   rw [if_pos hc] at h4
   refine ⟨?_, ?_⟩
   · simp only [children]; rw [if_pos hc]
